@@ -15,7 +15,8 @@ def runList (d k : Nat) : List Nat := List.range' d k
 structure DirRun (words : Array Nat) (d k : Nat) : Prop where
   pos   : 0 < k
   dir   : ∀ j, j < k → ∃ v, words[d + j]? = some v ∧ isDirWord v = true
-  stop  : ∃ w, words[d + k]? = some w ∧ isDirWord w = false
+  /-- the run is followed by a sector that is not reserved-flagged, or ends with the table's last sector -/
+  stop  : (∃ w, words[d + k]? = some w ∧ isDirWord w = false) ∨ d + k = words.size
   first : d = 0 ∨ ∃ u, words[d - 1]? = some u ∧ isDirWord u = false
   nolink : ∀ (y v : Nat), words[y]? = some v → isDirWord v = false → ¬ (d ≤ v ∧ v < d + k)
 
@@ -132,7 +133,19 @@ theorem akaiWalk_avoids (words : Array Nat) (d k : Nat) (hr : DirRun words d k)
     obtain ⟨h1, h2⟩ := ih st' hnext hl' he x hx
     exact ⟨h1, by rw [h2]; exact set_true_other _ _ _ hne⟩
   case case10 =>
-    rename_i st lst sub size v hw curDir hc1 hc2 hc3 st1 next hlt
+    rename_i st lst sub size v hw curDir hc1 hc2 hc3 st1 next hlt hdir ls hadd
+    cases he
+    have hne : sub ≠ x := by intro e; rw [e] at hsub; exact hsub hx
+    refine ⟨?_, by simp only [st1]; exact set_true_other _ _ _ hne⟩
+    apply addLinks_untouched _ _ _ hadd x
+    intro h
+    simp only [List.reverse_cons, List.mem_append, List.mem_reverse, List.mem_singleton] at h
+    rcases h with h | h
+    · exact hlst x h hx
+    · exact hne h.symm
+  case case11 => cases he
+  case case12 =>
+    rename_i st lst sub size v hw curDir hc1 hc2 hc3 st1 next hlt hndir
     cases he
     have hne : sub ≠ x := by intro e; rw [e] at hsub; exact hsub hx
     exact ⟨rfl, by simp only [st1]; exact set_true_other _ _ _ hne⟩
@@ -168,7 +181,10 @@ theorem atRun_dir (words : Array Nat) (d k : Nat) (hr : DirRun words d k) (st : 
   · exfalso
     have hjk : j = k := by omega
     subst hjk
-    obtain ⟨w, hw', hwd⟩ := hr.stop
+    rcases hr.stop with ⟨w, hw', hwd⟩ | hend
+    case inr =>
+      have := lt_of_getElem? _ _ _ hw
+      omega
     rw [hw] at hw'; cases hw'
     apply hc1
     have hlne : lst.isEmpty = false := by
@@ -187,18 +203,17 @@ theorem atRun_dir (words : Array Nat) (d k : Nat) (hr : DirRun words d k) (st : 
 /-- the walk through a directory run installs exactly the run. -/
 theorem akaiWalk_run (words : Array Nat) (d k : Nat) (hr : DirRun words d k) (hsize : words.size ≤ SAT_RES1)
     (st : AkaiSt) (lst : List Nat) (sub : Nat) :
-    ∀ st', AtRun d k st lst sub → st.dirty.size = words.size → akaiWalk words st lst sub = .ok st' →
+    ∀ st', AtRun d k st lst sub → sub < words.size → st.dirty.size = words.size → akaiWalk words st lst sub = .ok st' →
       addLinks (runList d k) st.links = .ok st'.links ∧ ∀ x, inRun d k x → st'.dirty[x]? = some true := by
-  have hstoplt : d + k < words.size := by
-    obtain ⟨w, hw, _⟩ := hr.stop
-    exact lt_of_getElem? _ _ _ hw
-  fun_induction akaiWalk words st lst sub <;> intro st' hat hdsz he
+  have hstople : d + k ≤ words.size := by
+    rcases hr.stop with ⟨w, hw, _⟩ | h
+    · have := lt_of_getElem? _ _ _ hw; omega
+    · omega
+  fun_induction akaiWalk words st lst sub <;> intro st' hat hsublt hdsz he
   case case1 =>
     rename_i st lst sub hw
-    obtain ⟨j, hj, rfl, _, _, _⟩ := hat
     exfalso
-    have : d + j < words.size := by omega
-    rw [Array.getElem?_eq_getElem this] at hw; cases hw
+    rw [Array.getElem?_eq_getElem hsublt] at hw; cases hw
   case case2 =>
     rename_i st lst sub v hw curDir hcond ls hadd
     simp only [List.unattach_reverse, List.unattach_attach] at hadd he
@@ -232,7 +247,8 @@ theorem akaiWalk_run (words : Array Nat) (d k : Nat) (hr : DirRun words d k) (hs
       · exfalso
         have hjk : j = k := by omega
         subst hjk
-        obtain ⟨w, hw', hwd⟩ := hr.stop
+        rcases hr.stop with ⟨w, hw', hwd⟩ | hend
+        case inr => omega
         rw [hw] at hw'; cases hw'
         apply hc1
         have hlne : lst.isEmpty = false := by
@@ -259,7 +275,7 @@ theorem akaiWalk_run (words : Array Nat) (d k : Nat) (hr : DirRun words d k) (hs
         simp [st1, this]
       · rw [show st1.dirty = st.dirty.setIfInBounds (d + j) true from rfl, set_true_other _ _ _ (Ne.symm e)]
         exact hdirty x hx1 (by omega)
-    have := ih st' hat' (by simp [st1, hdsz]) he
+    have := ih st' hat' (by simp only [size] at hlt; exact hlt) (by simp [st1, hdsz]) he
     exact this
   case case4 =>
     rename_i st lst sub size v hw curDir hc1 hc2 dirty' hc3 ls hadd
@@ -290,14 +306,37 @@ theorem akaiWalk_run (words : Array Nat) (d k : Nat) (hr : DirRun words d k) (hs
   case case8 =>
     cases he
   case case10 =>
-    rename_i st lst sub size v hw curDir hc1 hc2 hc3 st1 next hlt
+    -- the run ends with the table's last sector: the walk installs it on leaving the table
+    rename_i st lst sub size v hw curDir hc1 hc2 hc3 st1 next hlt hdir ls hadd
+    cases he
+    obtain ⟨j0, hj0k, hsubj0, hdv⟩ := atRun_dir words d k hr st lst sub v hat hw hc1
+    obtain ⟨j, hj, hsubj, hl, hp, hdirty⟩ := hat
+    have hjj : j = j0 := by omega
+    subst hjj
+    have hnext : next = sub + 1 := by simp [next, curDir, hdv]
+    have hk : k = j + 1 := by
+      have : ¬ sub + 1 < words.size := by rw [← hnext]; exact hlt
+      omega
+    subst hk
+    constructor
+    · simp only [st1]
+      rw [hsubj, hl, ← runList_succ, List.reverse_reverse] at hadd
+      exact hadd
+    · intro x hx
+      unfold inRun at hx
+      simp only [st1]
+      by_cases e : x = sub
+      · subst e
+        have : x < st.dirty.size := by rw [hdsz]; exact hsublt
+        simp [this]
+      · rw [set_true_other _ _ _ (Ne.symm e)]
+        exact hdirty x hx.1 (by omega)
+  case case11 => cases he
+  case case12 =>
+    rename_i st lst sub size v hw curDir hc1 hc2 hc3 st1 next hlt hndir
     exfalso
     obtain ⟨j, hjk, hsubj, hdv⟩ := atRun_dir words d k hr st lst sub v hat hw hc1
-    apply hlt
-    have : next = sub + 1 := by simp [next, curDir, hdv]
-    rw [this, hsubj]
-    simp only [size]
-    omega
+    simp [curDir, hdv] at hndir
 
 theorem akaiWalk_links_len (words : Array Nat) (st : AkaiSt) (lst : List Nat) (sub : Nat) :
     ∀ st', akaiWalk words st lst sub = .ok st' → st'.links.length = st.links.length := by
@@ -329,7 +368,12 @@ theorem akaiWalk_links_len (words : Array Nat) (st : AkaiSt) (lst : List Nat) (s
   case case9 =>
     rename_i st lst sub size v hw curDir hc1 hc2 hc3 st1 next hlt ih
     exact ih st' he
-  case case10 => cases he; rfl
+  case case10 =>
+    rename_i st lst sub size v hw curDir hc1 hc2 hc3 st1 next hlt hdir ls hadd
+    cases he
+    exact addLinks_length _ _ _ hadd
+  case case11 => cases he
+  case case12 => cases he; rfl
 
 theorem chain_congr (ls ls' : List Link) : ∀ c, (∀ x ∈ c, ls'[x]? = ls[x]?) → Chain ls c → Chain ls' c := by
   intro c
@@ -355,9 +399,10 @@ structure RInv (wa : Array Nat) (d k i : Nat) (st : AkaiSt) : Prop where
 theorem run_step (wa : Array Nat) (d k : Nat) (hr : DirRun wa d k) (hsize : wa.size ≤ SAT_RES1)
     (i : Nat) (st st' : AkaiSt) (hinv : RInv wa d k i st) (he : akStep wa st i = .ok st') :
     RInv wa d k (i + 1) st' := by
-  have hstoplt : d + k < wa.size := by
-    obtain ⟨w, hw, _⟩ := hr.stop
-    exact lt_of_getElem? _ _ _ hw
+  have hstople : d + k ≤ wa.size := by
+    rcases hr.stop with ⟨w, hw, _⟩ | h
+    · have := lt_of_getElem? _ _ _ hw; omega
+    · omega
   have hdin : inRun d k d := ⟨Nat.le_refl _, by have := hr.pos; omega⟩
   unfold akStep at he
   by_cases hd : st.dirty[i]?.getD true = true
@@ -379,7 +424,7 @@ theorem run_step (wa : Array Nat) (d k : Nat) (hr : DirRun wa d k) (hsize : wa.s
     · -- the walk from the first sector of the run
       subst e
       have hat : AtRun i k st [] i := ⟨0, by omega, by omega, by simp [runList], fun h => by omega, fun x h1 h2 => by omega⟩
-      obtain ⟨hadd, hdirty⟩ := akaiWalk_run wa i k hr hsize st [] i st' hat hinv.dsize he
+      obtain ⟨hadd, hdirty⟩ := akaiWalk_run wa i k hr hsize st [] i st' hat (by have := hr.pos; omega) hinv.dsize he
       refine ⟨hlen', hds', fun h => by omega, fun _ => ⟨?_, hdirty⟩⟩
       obtain ⟨ls, h1, _, h3, _⟩ := C07_addLinks_chain (runList i k) st.links
         (by intro e; have := congrArg List.length e; simp [runList] at this; have := hr.pos; omega)
@@ -430,15 +475,16 @@ theorem run_fold (wa : Array Nat) (d k : Nat) (hr : DirRun wa d k) (hsize : wa.s
 /-- **AKAI directory areas are decoded as runs.** In a table of at most 0x4000 entries (the real one
 has 11386), a run of `k ≥ 1` consecutive reserved-flag sectors starting at `d` that no link word
 points into, that does not continue an earlier run, and that is followed by a sector which is not
-reserved-flagged, is installed as the chain `d, d+1, …, d+k-1` ending with the last sector of the
+reserved-flagged — or ends with the last sector of the table (after the `fix:` of D18) —, is installed as the chain `d, d+1, …, d+k-1` ending with the last sector of the
 run: `get_path` from `d` resolves exactly it — whatever the rest of the table holds, and whatever
 word (end mark, link, free) the sector after the run carries. -/
 theorem C07_akai_dir_run (words : List Nat) (links : List Link) (h : akaiDecode words = .ok links)
     (hsize : words.length ≤ SAT_RES1) (d k : Nat) (hr : DirRun words.toArray d k) :
     Chain links (runList d k) ∧ getPath links words.length d = .ok (runList d k) := by
-  have hstoplt : d + k < words.length := by
-    obtain ⟨w, hw, _⟩ := hr.stop
-    simpa using lt_of_getElem? _ _ _ hw
+  have hstople : d + k ≤ words.length := by
+    rcases hr.stop with ⟨w, hw, _⟩ | h
+    · have := lt_of_getElem? _ _ _ hw; simp at this; omega
+    · simp at h; omega
   have hchain : Chain links (runList d k) := by
     unfold akaiDecode akaiDecodeSt at h
     simp only at h
@@ -464,7 +510,7 @@ theorem C07_akai_dir_run (words : List Nat) (links : List Link) (h : akaiDecode 
         have : x < words.length := by omega
         simp [this]
       have hfin := run_fold words.toArray d k hr (by simpa using hsize) words.length 0 _ st' hinv0 hfold
-      exact (hfin.after (by omega)).1
+      exact (hfin.after (by have := hr.pos; omega)).1
   refine ⟨hchain, ?_⟩
   have := C07_getPath_wf links words.length (runList d k) hchain (by simp [runList]; omega)
   have hhead : (runList d k).headD 0 = d := by
@@ -479,7 +525,7 @@ theorem C07_akai_dir_run (words : List Nat) (links : List Link) (h : akaiDecode 
 /-- premises satisfiable: a two-sector run 3,4 (mixed flags) followed by an end mark, after a free
 sector, next to a file chain. -/
 example : DirRun #[0x4000, 0xC000, 0, 0x8000, 0x4000, 0xC000, 7, 0xC000] 3 2 := by
-  refine ⟨by decide, ?_, ⟨0xC000, by decide, by decide⟩, Or.inr ⟨0, by decide, by decide⟩, ?_⟩
+  refine ⟨by decide, ?_, Or.inl ⟨0xC000, by decide, by decide⟩, Or.inr ⟨0, by decide, by decide⟩, ?_⟩
   · intro j hj
     match j, hj with
     | 0, _ => exact ⟨0x8000, by decide, by decide⟩
@@ -495,5 +541,24 @@ example : DirRun #[0x4000, 0xC000, 0, 0x8000, 0x4000, 0xC000, 7, 0xC000] 3 2 := 
     | 5, _ => simp at hy; subst hy; omega
     | 6, _ => simp at hy; subst hy; omega
     | 7, _ => simp at hy; subst hy; omega
+
+/-- premises satisfiable for the other ending: a run 6,7 that ends with the table's last sector. -/
+example : DirRun #[0x4000, 0xC000, 0, 0, 0, 0, 0x8000, 0x4000] 6 2 := by
+  refine ⟨by decide, ?_, Or.inr (by decide), Or.inr ⟨0, by decide, by decide⟩, ?_⟩
+  · intro j hj
+    match j, hj with
+    | 0, _ => exact ⟨0x8000, by decide, by decide⟩
+    | 1, _ => exact ⟨0x4000, by decide, by decide⟩
+  · intro y v hy hd hin
+    have hylt : y < 8 := lt_of_getElem? _ _ _ hy
+    match y, hylt with
+    | 0, _ => simp at hy; subst hy; simp [isDirWord, SAT_RES1, SAT_RES2] at hd
+    | 1, _ => simp at hy; subst hy; omega
+    | 2, _ => simp at hy; subst hy; omega
+    | 3, _ => simp at hy; subst hy; omega
+    | 4, _ => simp at hy; subst hy; omega
+    | 5, _ => simp at hy; subst hy; omega
+    | 6, _ => simp at hy; subst hy; simp [isDirWord, SAT_RES1, SAT_RES2] at hd
+    | 7, _ => simp at hy; subst hy; simp [isDirWord, SAT_RES1, SAT_RES2] at hd
 
 end Smpl.Props.C07
